@@ -165,6 +165,8 @@ def run_case(case, sched, compare, want=None, m1=False):
                     except Exception as e:
                         info = _exc_info(e)
                         v = {"class": "dask_raises:" + info["type"], "exc": info}
+                if v is None and case.get("pair") and not aborted:
+                    v = _pair(case, compare, want)
                 if v is None and case.get("followup"):
                     # a second call on the SAME raster objects (a user keeps working with them): other
                     # parameters and/or one raster swapped for another of the same shape and chunks
@@ -175,6 +177,40 @@ def run_case(case, sched, compare, want=None, m1=False):
                     out["violation"] = v
         out["aborted"] = aborted
     return out
+
+
+def pair_case(case):
+    return {k: (case["pair"]["params"] if k == "params" else x) for k, x in case.items() if k != "pair"}
+
+
+def _pair(case, compare, want1):
+    """Two calls on the same Dask rasters, both left lazy, computed by one dask.compute."""
+    c2 = pair_case(case)
+    want2, why = numpy_reference(c2)
+    if why:
+        return None
+    rasters, _ = build_with_bases(case, "dask")
+    try:
+        l1 = OPS[case["op"]](rasters, case["params"])
+        l2 = OPS[case["op"]](rasters, c2["params"])
+        g1, g2 = dask.compute(l1, l2)
+        got1, got2 = materialise(g1), materialise(g2)
+    except (StepCap, InjectedFault):
+        return None
+    except Exception as e:
+        if _from_harness(e):
+            raise
+        info = _exc_info(e)
+        return {"class": "pair_dask_raises:" + info["type"], "exc": info}
+    for which, c, got, want in (("first", case, got1, want1), ("second", c2, got2, want2)):
+        v = compare(c, got, want)
+        if v is not None:
+            v = dict(v)
+            v["class"] = "pair_" + v["class"]
+            v["which_of_the_pair"] = which
+            v["pair_params"] = c2["params"] if which == "second" else None
+            return v
+    return None
 
 
 def followup_case(case):
